@@ -65,7 +65,8 @@ def tool_check(mism, lines):
 # ------------------------------------------------------------------------------------------ C11
 def key_build(m, obs):
     h = obs.get("hdr", {})
-    return "%s:type%s:%s:%s" % (m["what"], h.get("type"), obs.get("via"), "".join(sig_of(t) for t in obs.get("body", {}).get("ts", [])))
+    body = "none" if not obs.get("body", {}).get("ts") else ("fds" if obs.get("nfds", 0) or "h" in json.dumps(obs["body"]["ts"]) else "args")
+    return "%s:type%s:%s:%s" % (m["what"], h.get("type"), obs.get("via"), body)
 
 
 def classify_build(chk, mism, lines):
@@ -259,17 +260,23 @@ def run_c13(chk, binp):
     if not rd.violation or "NeverStopsOnTolerated" not in rd.violation:
         raise core.ToolError("MC_MsgReader: the deviation run did not violate NeverStopsOnTolerated (vacuous invariant)")
     chk.cov["mc_deviation_caught"] = True
+    core.log("[C13] MC_MsgReader %d states in %.1fs; deviation run %.1fs" % (r.distinct, r.wall, rd.wall))
     cases = chk.path("cases.ndjson")
     g, n = core.tlc_generate("gen/Gen_MsgCompat.tla", "gen/Gen_MsgCompat_%s.cfg" % ("quick" if quick else "thorough"), cases, timeout=3000)
     chk.add_tlc(g)
+    core.log("[C13] generated %d streams in %.1fs" % (n, g.wall))
     obs = chk.path("obs.ndjson")
+    t0 = time.time()
     core.run_bin(binp, ["obs-compat", cases, obs, 4], timeout=3000)
+    core.log("[C13] observed in %.1fs" % (time.time() - t0))
     objs = [json.loads(x) for x in open(obs)]
     for o in objs:
         for cn in o["conns"]:
             if "tool_error" in cn:
                 raise core.ToolError("connection harness failed on case %s (%s): %s" % (o["id"], cn["mode"], cn["tool_error"]))
+    t0 = time.time()
     out, lines = validate(chk, obs, shards=14)
+    core.log("[C13] validated %d observations in %.1fs" % (len(lines), time.time() - t0))
     classify_compat(chk, out["MISMATCH"], lines)
     chk.add("enumerated_cases", n)
     chk.cov["exhaustive"] = True
